@@ -7,6 +7,7 @@ import (
 	"go/ast"
 	"go/token"
 	"regexp"
+	"sort"
 	"strings"
 )
 
@@ -478,5 +479,148 @@ func init() {
 			})
 		}
 		return fmt.Sprintf("Definition %s : list (string * string) :=\n  [%s].", it.Coq, strings.Join(rows, ";\n   ")), nil
+	}
+}
+
+// ---- refactoring-tolerant structural facts (round 3) ----------------------------------------------------
+
+func init() {
+	// toplevel_stmt_has: true iff some DIRECT child statement of the function body that is not a compound
+	// statement (if / for / switch / select / block) matches Regex (text whitespace-normalised).  Captures
+	// "this is done unconditionally" without fixing the neighbouring statements.
+	customKinds["toplevel_stmt_has"] = func(it Item) (string, error) {
+		p, err := loadPkg(it.Pkg)
+		if err != nil {
+			return "", err
+		}
+		fd := findFunc(p, it.Func)
+		if fd == nil {
+			return "", fmt.Errorf("function %s not found in %s", it.Func, it.Pkg)
+		}
+		re, err := regexp.Compile(it.Regex)
+		if err != nil {
+			return "", err
+		}
+		ws := regexp.MustCompile(`\s+`)
+		found := false
+		for _, s := range fd.Body.List {
+			switch s.(type) {
+			case *ast.IfStmt, *ast.ForStmt, *ast.RangeStmt, *ast.SwitchStmt, *ast.TypeSwitchStmt, *ast.SelectStmt, *ast.BlockStmt:
+				continue
+			}
+			if re.MatchString(ws.ReplaceAllString(nodeText(p, s), " ")) {
+				found = true
+			}
+		}
+		return fmt.Sprintf("Definition %s : bool := %s.", it.Coq, coqBool(found)), nil
+	}
+
+	// decision_paths: the decision structure of a function that only tests conditions and returns: the SET of
+	// (conjunction of guard conditions, returned first value) pairs, independent of nesting, early returns and
+	// if/else style.  Conditions are normalised (outer parentheses and double negations removed), the conjuncts
+	// of a path and the paths themselves are sorted.  Emitted as "c1 & c2 => outcome" strings.
+	customKinds["decision_paths"] = func(it Item) (string, error) {
+		p, err := loadPkg(it.Pkg)
+		if err != nil {
+			return "", err
+		}
+		fd := findFunc(p, it.Func)
+		if fd == nil {
+			return "", fmt.Errorf("function %s not found in %s", it.Func, it.Pkg)
+		}
+		ws := regexp.MustCompile(`\s+`)
+		norm := func(c string) string {
+			c = strings.TrimSpace(ws.ReplaceAllString(c, " "))
+			for {
+				if len(c) >= 2 && c[0] == '(' && c[len(c)-1] == ')' {
+					depth, whole := 0, true
+					for i, ch := range c {
+						if ch == '(' {
+							depth++
+						} else if ch == ')' {
+							depth--
+							if depth == 0 && i != len(c)-1 {
+								whole = false
+								break
+							}
+						}
+					}
+					if whole {
+						c = strings.TrimSpace(c[1 : len(c)-1])
+						continue
+					}
+				}
+				break
+			}
+			return c
+		}
+		simple := regexp.MustCompile(`^[\w.]+$`)
+		var neg func(c string) string
+		neg = func(c string) string {
+			c = norm(c)
+			if strings.HasPrefix(c, "!") {
+				rest := norm(c[1:])
+				if simple.MatchString(rest) || (strings.HasPrefix(c[1:], "(") && norm(c[1:]) != c[1:]) {
+					return rest
+				}
+			}
+			if simple.MatchString(c) {
+				return "!" + c
+			}
+			return "!(" + c + ")"
+		}
+		pos := func(c string) string {
+			c = norm(c)
+			if strings.HasPrefix(c, "!") { // !!x / !(!x)
+				inner := norm(c[1:])
+				if strings.HasPrefix(inner, "!") {
+					return norm(inner[1:])
+				}
+				if simple.MatchString(inner) {
+					return "!" + inner
+				}
+				return "!(" + inner + ")"
+			}
+			return c
+		}
+		var paths []string
+		var walk func(list []ast.Stmt, path []string) bool // returns true when every path through list returns
+		walk = func(list []ast.Stmt, path []string) bool {
+			for _, s := range list {
+				switch x := s.(type) {
+				case *ast.ReturnStmt:
+					out := "void"
+					if len(x.Results) > 0 {
+						out = nodeText(p, x.Results[0])
+						if out != "nil" {
+							out = "err"
+						}
+					}
+					cs := append([]string(nil), path...)
+					sort.Strings(cs)
+					paths = append(paths, strings.Join(cs, " & ")+" => "+out)
+					return true
+				case *ast.IfStmt:
+					c := nodeText(p, x.Cond)
+					thenRet := walk(x.Body.List, append(append([]string(nil), path...), pos(c)))
+					elseRet := false
+					if eb, ok := x.Else.(*ast.BlockStmt); ok {
+						elseRet = walk(eb.List, append(append([]string(nil), path...), neg(c)))
+					}
+					if thenRet && elseRet {
+						return true
+					}
+					if thenRet {
+						path = append(append([]string(nil), path...), neg(c))
+					} else if elseRet {
+						path = append(append([]string(nil), path...), pos(c))
+					}
+				}
+			}
+			return false
+		}
+		walk(fd.Body.List, nil)
+		sort.Strings(paths)
+		return fmt.Sprintf("Definition %s : list string := %s.", it.Coq, coqStrList(paths)), nil
 	}
 }
